@@ -48,9 +48,11 @@ ASSUMPTIONS = [
 COMMANDS = ["onboard", "unlock", "changepin", "pubkeys"]
 MODES = ["bootloader", "signer", "ui-heartbeat", "foreign"]
 PINKINDS = ["valid", "short", "digits", "nonalnum", "none"]
-ANSWERS = [["yes"], ["no"], ["maybe", "yes"], ["Y", "no"], ["YES"]]
+ANSWERS = [["yes"], ["no"], ["maybe", "yes"], ["Y", "no"], ["YES"],
+           # an operator who keeps answering something else: no number of non-answers is a yes
+           ["maybe", "", "y", "no"], ["a", "b", "c"], ["ok", "sure", "fine", "go", "yes please", "n"]]
 DIMS = [[0, 1], list(range(4)), list(range(4)), [0, 1], [0, 1], list(range(5)), [0, 1], [0, 1, 2],
-        list(range(5)), [0, 1], [0, 1]]
+        list(range(len(ANSWERS))), [0, 1], [0, 1]]
 
 
 def make_pin(ch, kind):
@@ -79,7 +81,7 @@ def run_one(ch, cfg):
     pinkind = PINKINDS[ch.draw(5, "pin-kind")]
     via_prompt = ch.draw(2, "pin-via-prompt") == 1
     bad_attempts = ch.draw(3, "invalid-attempts-first")
-    answers = ANSWERS[ch.draw(5, "answers")]
+    answers = ANSWERS[ch.draw(len(ANSWERS), "answers")]
     any_pin = ch.draw(2, "anypin") == 1
     flag2 = ch.draw(2, "nounlock/noexec") == 1
     devpin = b"Dev1cePin"[:8]
